@@ -263,6 +263,41 @@ def run(ctx):
         ob = core.attempt(E.process_beads_table, W['btab'].iloc[0:0], W['itab'], base_dir=base, verbose=False, full_output=True)
         ctx.check((not ob.raised) and all(len(x) == 0 for x in ob.value), 'empty-table', ('empty', 'beads'))
         ctx.case_done(class_key=('empty',), nontrivial=False)
+    # ---- histories on the file system: a row's file disappears, appears or is replaced between two batches of one process
+    if ctx.shard == 0 or ctx.only_case is not None:
+        import shutil as _sh
+        cid = ('fs-history', 0)
+        mon.cid = cid
+        h0 = dict(W['healthy'][3])           # no beads involved
+        tmpf = os.path.join(base, 's_tmp.fcs')
+        row = dict(h0, fp='s_tmp.fcs')
+        steps = [('absent', None), ('present', W['healthy'][0]['fp']), ('absent', None), ('replaced', W['healthy'][1]['fp']), ('present', W['healthy'][0]['fp'])]
+        for what, src in steps:
+            if os.path.exists(tmpf):
+                os.remove(tmpf)
+            if src is not None:
+                _sh.copyfile(os.path.join(base, src), tmpf)
+            o = run_table(table([row, dict(h0)]))
+            ctx.counters['chk:no-escape'] += 1
+            if not ctx.check(not o.raised, 'exception-escapes-batch', cid, step=what, exc=core.tb_str(o.exc)[-300:] if o.raised else None):
+                continue
+            g = o.value['R0']
+            ctx.counters['chk:error-row'] += 1
+            if src is None:
+                ctx.check(isinstance(g, E.ExcelUIException), 'fault-not-recorded-as-row-error:missing-file', cid, step=what,
+                          history=[w for w, _ in steps], got=type(g).__name__)
+            else:
+                oref = run_table(table([dict(h0, fp=src)]))          # the same bytes under their own name
+                r_ = None if oref.raised else oref.value['R0']
+                same_ = (not isinstance(g, Exception)) and r_ is not None and not isinstance(r_, Exception) and \
+                    np.asarray(g).shape == np.asarray(r_).shape and np.asarray(g).tobytes() == np.asarray(r_).tobytes() and \
+                    dict(g.text) == dict(r_.text) and \
+                    [list(map(float, g.range(p_))) for p_ in range(g.shape[1])] == [list(map(float, r_.range(p_))) for p_ in range(r_.shape[1])]
+                ctx.check(same_, 'row-result-depends-on-earlier-batches', cid, step=what, history=[w for w, _ in steps],
+                          error=str(g) if isinstance(g, Exception) else None)
+        if os.path.exists(tmpf):
+            os.remove(tmpf)
+        ctx.case_done(class_key=('fs-history',), nontrivial=True, distinct_key=core.digest(cid))
     # ---- the same batch WITHOUT the optional beads table ("no checking will be performed" of bead settings): the faults that
     # do not depend on that table are still row errors, and a row whose calibration is missing is one of them
     indep = [None, 'missing-file', 'few-events', 'fraction-neg', 'fraction-big', 'bad-units', 'calib-failed', 'calib-nomef', 'calib-nochannel']
